@@ -47,10 +47,16 @@ def build(job):
         for s_ in sorted(sets_used & cat.IPCONE_POW2):
             once[s_] = B[s_](z, u)
 
+    # ... and in a quarter of the renderings EVERY set is written once and its constraint objects are handed to every
+    # forall() / minmax() that uses it (a tuple the user keeps around)
+    reuse_objects = var % 4 == 3
+
     def uset(s):
         if s in once:
             return list(once[s])
         cons = B[s](z, u)
+        if reuse_objects:
+            once[s] = cons
         return cons
 
     def expr(tm):
